@@ -162,3 +162,14 @@ def register(claim):
                'all-null, empty table) x rex run as recorded sessions.',
           note=NOTE_COMMON + ' SQLite only (no other drivers installed).',
           ref='DESIGN.md section 5, C08')
+    claim('C16',
+          technique='TLA+ case analysis (Csvw.tla): the ordered str.replace chain transcribed with Python semantics vs the field-wise '
+                    'translation, on every composed pattern; and the dialect/header -> read_csv keyword decision table; TLC '
+                    'exhaustive; patterns replayed on the real translator and on real CSV + CSVW files through csv2pandas; each '
+                    'load is a trace line judged by Trace_Csvw',
+          text='1408 date / date-time patterns (d|dd, M|MM, yy|yyyy in 4 orders x 4 separators, optional time HH:mm[:ss[.S|SS|SSS]] '
+               'joined by space or T): translation compared on all; real instants (leap day, midnight, fractions exact for the field '
+               'width) written with the intended pattern and read back; 480-case dialect matrix (delimiter , | tab ; x utf-8/latin-1/'
+               'utf-16 x header present / absent in 3 spellings x titles x boolean spelling) over typed columns with a null row.',
+          note=NOTE_COMMON + ' Value fidelity is measured on real files; fields are separated (no adjacent fields).',
+          ref='DESIGN.md section 5, C16')
